@@ -119,6 +119,73 @@ fn preseeded(rng: &mut Rng, out: &mut Out) {
     }
 }
 
+/// Stanzas whose full match consists of several sibling nodes (a quantified top-level pattern):
+/// the match-node attribute must name one of those nodes, and both modes must name the same one.
+fn multi_node_match(rng: &mut Rng, out: &mut Out) {
+    let texts = [
+        "(comment)+ @cs { node n attr (n) count = (length @cs) }",
+        "((comment)+ @cs . (expression_statement) @stmt) { node n attr (n) stmt = (source-text @stmt) for c in @cs { node m attr (m) c = (source-text c) } }",
+        "((comment) @first . (comment)+ @rest) { node n attr (n) f = (source-text @first), r = (length @rest) }",
+    ];
+    let text = *rng.pick(&texts);
+    let n = rng.range(2, 5);
+    let mut source = String::new();
+    for i in 0..n {
+        source.push_str(&format!("# comment {}\n", i));
+    }
+    source.push_str("x = 1\n# alone\ny = 2\n# p\n# q\nz\n");
+    let tree = parse_python(&source);
+    let ti = TreeInfo::new(&tree);
+    let file = match exec::load(text) {
+        Loaded::Ok(f) => f,
+        _ => {
+            out.inconclusive("harness: multi-node-match program rejected");
+            return;
+        }
+    };
+    let functions = stdlib();
+    let globals = BTreeMap::new();
+    let mut per_mode: Vec<Vec<MVal>> = Vec::new();
+    for lazy in [false, true] {
+        let mut dopts = ExecOpts::new(lazy);
+        dopts.debug_attrs = Some((LOC, VAR, MAT));
+        let rep = exec::execute(&file, &tree, &source, &ti, &globals, &functions, &dopts);
+        out.eval();
+        match &rep.real {
+            Real::Graph(g) => {
+                let mut v: Vec<MVal> = Vec::new();
+                for nd in &g.nodes {
+                    match nd.attrs.get(MAT) {
+                        Some(MVal::Syn(i)) => {
+                            if ti.nodes[*i].kind != "comment" {
+                                out.violation("C15:wrong-match-node:multi-node-match", &format!("the match-node attribute names a {} node, the stanza matches comments", ti.nodes[*i].kind), json!({"dsl": text, "source": source}));
+                                return;
+                            }
+                            v.push(MVal::Syn(*i));
+                        }
+                        other => {
+                            out.violation("C15:missing-match-node:multi-node-match", &format!("a node created by a node statement carries {:?} as match node", other), json!({"dsl": text, "source": source}));
+                            return;
+                        }
+                    }
+                }
+                v.sort();
+                per_mode.push(v);
+            }
+            other => {
+                // tree-sitter does not always report such matches with a node (D4/D5): an error
+                // in both modes is accepted, a difference is not
+                per_mode.push(vec![MVal::Str(format!("no graph: {}", other.brief().chars().take(20).collect::<String>()))]);
+            }
+        }
+    }
+    if per_mode[0] != per_mode[1] {
+        out.violation("C15:match-node-differs-between-modes", &format!("strict names {:?}, lazy names {:?}", per_mode[0], per_mode[1]), json!({"dsl": text, "source": source}));
+        return;
+    }
+    out.feat("multi_node_match_checked");
+}
+
 impl Prop for C15 {
     fn id(&self) -> &'static str {
         "C15"
@@ -134,6 +201,7 @@ impl Prop for C15 {
             for _ in 0..4 {
                 preseeded(rng, out);
             }
+            multi_node_match(rng, out);
             return;
         }
         let mut gcfg = GenCfg::order_insensitive();
